@@ -287,6 +287,89 @@ fn inner_level(case: &Case) -> &Level {
     }
 }
 
+
+// ---------------------------------------------------------------------------------------------
+// second family: the rest of the line collected by `any("REST", Some).many()` (the usual way to
+// pass arguments on to another program): everything right of the first `--` arrives verbatim
+// ---------------------------------------------------------------------------------------------
+
+pub struct RestCase {
+    pub level: Level,
+    pub argv: Vec<Vec<u8>>,
+    pub right: Vec<Vec<u8>>,
+}
+
+pub fn decode_rest(bytes: &[u8]) -> RestCase {
+    let mut u = Un::new(bytes);
+    let mut names = Names::new();
+    let mut fields: Vec<Node> = Vec::new();
+    let mut argv: Vec<Vec<u8>> = Vec::new();
+    for _ in 0..u.below(3) {
+        let n = gen_named_leaf(&mut u, &mut names, NamedKind::Switch);
+        if u.bool() {
+            argv.push(n.first_name().into_bytes());
+        }
+        fields.push(Node::Named(n));
+    }
+    fields.push(Node::Many {
+        n: Node::Any(AnySpec {
+            metavar: "REST".into(),
+            prefixes: vec![String::new()],
+            anywhere: false,
+            help: None,
+        })
+        .b(),
+        catch: false,
+    });
+    let level = Level::simple(Node::Seq(fields));
+    argv.push(b"--".to_vec());
+    let pool: &[&[u8]] = &[b"--", b"-x", b"--y", b"word", b"--help", b"-h", b"", b"-", b"--k=v", b"a b"];
+    let n = u.below(5);
+    let mut right = Vec::new();
+    for _ in 0..n {
+        right.push((*u.pick(pool)).to_vec());
+    }
+    argv.extend(right.iter().cloned());
+    RestCase { level, argv, right }
+}
+
+fn check_rest(bytes: &[u8], ctx: &mut Ctx) -> Verdict {
+    let case = decode_rest(bytes);
+    let parser = match guarded(|| {
+        let p = build_level(&case.level);
+        p.check_invariants(false);
+        p
+    }) {
+        Ok(p) => p,
+        Err(_) => return Verdict::Skip("definition rejected by check_invariants"),
+    };
+    let out = run(&parser, &case.argv);
+    ctx.eval(1);
+    ctx.class("family:rest-collected-by-any");
+    if case.right.iter().any(|w| w.starts_with(b"-")) {
+        ctx.nontrivial(fnv_str(&format!("{:?}{:?}", case.level, case.argv)));
+    }
+    match &out {
+        Outcome::Panic { at, msg } => Verdict::fail(format!("panic@{}", at), msg.clone()),
+        Outcome::Value(v) => {
+            let mut leaves = Vec::new();
+            v.leaves(&mut leaves);
+            if leaves == case.right {
+                Verdict::Pass
+            } else {
+                Verdict::fail(
+                    "rest-after-dashdash-not-delivered-verbatim",
+                    format!("{:?} -> {}", show_argv(&case.argv), v),
+                )
+            }
+        }
+        other => Verdict::fail(
+            format!("rest-after-dashdash-interpreted/{}", other.class()),
+            format!("{:?} -> {}", show_argv(&case.argv), other.short()),
+        ),
+    }
+}
+
 impl Prop for C09 {
     fn id(&self) -> &'static str {
         "C09"
@@ -310,6 +393,15 @@ impl Prop for C09 {
          distinct by hash of (definition, argv)."
     }
     fn check(&self, bytes: &[u8], ctx: &mut Ctx) -> Verdict {
+        // one case in sixteen belongs to the second family
+        if bytes.first().map_or(false, |b| b % 16 == 15) {
+            return check_rest(&bytes[1..], ctx);
+        }
+        // and one in thirty-two is a group of (mostly strict) positionals right of `--`, shared
+        // with C19: pairs of words, dash-looking ones included
+        if bytes.first().map_or(false, |b| b % 32 == 14) {
+            return crate::props::c19::check_pairs(&bytes[1..], ctx);
+        }
         let case = decode(bytes);
         let parser = match guarded(|| {
             let p = build_level(&case.root);
@@ -528,6 +620,22 @@ impl Prop for C09 {
         Verdict::Pass
     }
     fn describe(&self, bytes: &[u8]) -> Value {
+        if bytes.first().map_or(false, |b| b % 32 == 14) {
+            let c = crate::props::c19::decode_pairs(&bytes[1..]);
+            return json!({
+                "family": "adjacent pairs of positionals right of --",
+                "definition": show_level(&c.level),
+                "argv": show_argv(&c.argv),
+            });
+        }
+        if bytes.first().map_or(false, |b| b % 16 == 15) {
+            let c = decode_rest(&bytes[1..]);
+            return json!({
+                "family": "rest of the line collected by any(..).many()",
+                "definition": show_level(&c.level),
+                "argv": show_argv(&c.argv),
+            });
+        }
         let case = decode(bytes);
         json!({
             "definition": show_level(&case.root),
